@@ -119,6 +119,49 @@ CLAIMED['C03'] = dict(
          'witnesses (cap k -> k+2 columns; overflow of the second-layer block). Finiteness on floats is an oracle check, not a theorem.',
     note=NOTE + ' Member decompositions, noise and the mask extraction are oracles here (C07/C08 treat them); ensembles are compared exactly with zero noise amplitude only.')
 
+CLAIMED['C09'] = dict(
+    technique='Coq proof over a Gallina model (canonical rationals, abstract period tau, oracle contracts for Hilbert/angle/abs/envelopes) of gradient / cumsum / wrap / unwrap / medfilt / freq_from_phase / phase_from_freq / frequency_transform + differential correspondence (exact on dyadic data, 1e-9 where the double 2pi enters) + pipeline trace; accuracy clause by oracle sweep only (PARTIAL)',
+    text='PARTIAL. Theorems (Prop_C09.v) prove for all inputs over exact rationals: outputs have the input\'s shape; the repaired wrap keeps phase in '
+         '[0, tau) for every rounding function (and the pre-repair one is refuted with a witness); IF = (sr/tau) * gradient(U) with IP = wrap(U) for the '
+         'same unwrapped U; wrap(unwrap) identity and bounded unwrap steps; median-of-5 smoothing leaves an increasing phase unchanged inside; the '
+         'frequency -> phase -> frequency round trip returns (f[k]+f[k+1])/2 inside, exactly f where constant, with the stated end values; a linear phase '
+         'gives constant frequency; phase and frequency are unchanged and amplitude scales under positive rescaling GIVEN the homogeneity contracts of '
+         'scipy.signal.hilbert / np.angle / np.abs / the envelope oracles (trusted premises, shown jointly satisfiable). NOT PROVED: the accuracy clause '
+         '(recovering frequency, amplitude and phase of a sampled sinusoid within tolerance) is a statement about scipy\'s FFT Hilbert transform and the '
+         'spline interpolants; it is watched by an oracle sweep with tolerances at 3x the error measured on this tree (regression guard only).',
+    note=NOTE + ' IEEE rounding enters only through the explicit rounding function of wrap; np.gradient/np.unwrap/medfilt are modelled concretely and validated on dyadic data.')
+CLAIMED['C15'] = dict(
+    technique='Coq proof over a state-machine model of the Cycles container (induction over all operation histories; parametric in the reducing function; string-level condition parser) + differential correspondence of random operation histories with cache on and off + model-free oracle',
+    text='Theorems (Prop_C15.v) prove by induction over EVERY operation history (compute metric in cycle/augmented mode for any function, add metric, '
+         'timings, pick subset, chain timings, exports) that every stored metric has one entry per cycle and equals the function applied to that '
+         'cycle\'s samples, that the subset is exactly the cycles satisfying all condition strings at the time of the pick numbered in order, that chains '
+         'are the maximal runs, that chain metrics and exports agree, that a failing pick leaves the container unchanged, that the six comparators and '
+         'negative/decimal/exponent literals parse and mean what they say (nan satisfies only !=), and that the slice cache changes neither state nor '
+         'outputs over any history; the pre-repair code is refuted with witnesses (zero-cycle cache, augmented definitions, half-updated pick). '
+         'Correspondence: corpus + random histories up to length 12 on containers from integer-coded phases, cache on and off, every state component '
+         'after every step, exactly.',
+    note=NOTE + ' The pandas DataFrame is observed through columns/rows/values only; get_cycle_vector, is_good, index maps and projections are the C12/C13/C16 models. Coherence is read at selection time (a metric overwritten after a pick is not reported as stale).')
+CLAIMED['C18'] = dict(
+    technique='Coq proof over a Gallina model of SiftConfig (option tree, slash paths, YAML routes with dump/load as contract oracles) + defaults table REGENERATED from emd/sift.py on every run by a fail-closed ast translator and re-proved by computation + differential correspondence of random edit histories and both YAML routes + behavioural oracle',
+    text='Theorems (Prop_C18.v) prove for all option trees, paths and values that slash-separated key paths read, write and delete exactly the entries '
+         'nested indexing does (split/join inverse, depth beyond three levels rejected by all three methods), that a write or delete changes exactly its '
+         'own entry and nothing else, that exporting keeps keys and values up to tuple/array -> list, and that both YAML routes (file, text/stream) give '
+         'back the same sift type and options under the dump/load contract; the text route and the file route of the code before the repairs are '
+         'refuted. default_config_faithful / default_config_exportable are proved by vm_compute over coq/gen/Gen_Defaults.v, which harness/gen_tables.py '
+         'regenerates from the source (signatures, literal fall-back dictionaries, get_config output) on every run. Behavioural equality of '
+         'variant(x, **get_config(variant)), variant(x) and get_func()(x), and of the callable after a YAML round trip, is an oracle check.',
+    note=NOTE + ' PyYAML dump/load and inspect.signature are oracles; the translator is part of the trusted base (fails closed on any unknown AST node).')
+CLAIMED['C19'] = dict(
+    technique='Coq proof over a Gallina model of the four ensure_* validators on shapes of ANY rank and of which validator each entry point calls + exhaustive differential correspondence on every shape of rank <= 3 over {1,2,3,5} (+ rank 0/4, empty axes) + oracle for non-mutation/determinism (PARTIAL: heap clauses not proved)',
+    text='PARTIAL. Theorems (Prop_C19.v) prove for shapes of every rank that (n), (n,1), (n,1,...,1) normalise to the same single-column form for the '
+         'single-signal sift routines and every other shape ((n,2), (1,n), (n,2,3), ...) is rejected, the full accept/reject relation and idempotence of '
+         'ensure_1d_with_singleton, ensure_vector and ensure_2d as repaired, that ensure_equal_dims accepts iff the compared axes exist and agree, and '
+         'that each multi-array entry point (hilberthuang, holospectrum, phase_align, bin_by_phase, get_cycle_vector mask) rejects mismatched lengths and '
+         'accepts vector or column; the pre-repair validators are refuted. NOT PROVED (a functional model cannot exhibit heap aliasing or uninitialised '
+         'memory): "never modifies its arguments" and "repeating a deterministic call gives an identical result" - watched by the oracle over ~75 entry '
+         'points (byte comparison of arrays and option dictionaries before/after, read-only arrays, repeated calls, value equality across layouts).',
+    note=NOTE + ' Which validator an entry point calls is hand-modelled and validated by the accept/reject correspondence on the entry points themselves.')
+
 _PENDING = 'check under construction in this session (model/theorem/correspondence not all in place yet); not claimed until they are'
 NOT_CLAIMED = {('C%02d' % i): _PENDING for i in range(1, 21)}
 for _p in CLAIMED:
